@@ -37,12 +37,14 @@ impl Verdict {
 
 /// feed the lines to the driver; returns verdict per case id
 pub fn run(lines: &[String]) -> Result<HashMap<String, Verdict>, String> {
-    let mut child = Command::new(DRIVER)
+    // bin/check hands over a private copy of the driver so that a concurrent re-link cannot pull it away
+    let driver = std::env::var("XSG_DRIVER").unwrap_or_else(|_| DRIVER.to_string());
+    let mut child = Command::new(&driver)
         .stdin(Stdio::piped())
         .stdout(Stdio::piped())
         .stderr(Stdio::piped())
         .spawn()
-        .map_err(|e| format!("cannot start the model driver {}: {}", DRIVER, e))?;
+        .map_err(|e| format!("cannot start the model driver {}: {}", driver, e))?;
     let mut stdin = child.stdin.take().unwrap();
     let payload: String = lines.iter().map(|l| format!("{}\n", l)).collect();
     let writer = std::thread::spawn(move || {
